@@ -34,7 +34,7 @@ func c14seq(n int) string {
 	return string(b)
 }
 
-var c14attrMenu = [][2]string{{"ID", "gene0001"}, {"Name", "thr operon leader"}, {"Note", "a%2Cb"}, {"Dbxref", "GeneID:1,UniProt:P1"}, {"locus_tag", "b0001"}, {"product", "hypothetical protein (50 %)"}}
+var c14attrMenu = [][2]string{{"ID", "gene0001"}, {"Name", "thr operon leader"}, {"Note", "a%2Cb identity 97%3B coverage 100%25 x%3Dy %09 %0A"}, {"Dbxref", "GeneID:1,UniProt:P1"}, {"locus_tag", "b0001"}, {"product", "hypothetical protein (50 %)"}}
 
 func attrString(m map[string]string) string {
 	var k []string
